@@ -1401,6 +1401,7 @@ func c07Mutations(name string, pk []c07Pkt, quick bool, only string) []c07Mut {
 
 type c07Checker struct {
 	cfg   c07Cfg
+	burst bool // whole stream in one write: only the schedule-independent clauses are judged
 	bound int
 	res   *reg.Result
 	refs  map[string]*c07Outcome
@@ -1463,6 +1464,17 @@ func (k *c07Checker) check(m *c07Mut) (key, msg, outcome string) {
 	cands, firstBad := c07Candidates(frames)
 	if firstBad == "well-formed" && m.field != "" {
 		firstBad = "well-formed:" + m.field
+	}
+	if k.burst {
+		mo := c07Exec(k.cfg, m.stream, nil, k.bound, firstBad)
+		k.merge(mo)
+		if mo.engineErr != "" {
+			return "", "", "engine-error"
+		}
+		if mo.badKey != "" {
+			return mo.badKey, fmt.Sprintf("server %s on the mutated stream written in one burst (%s; first non-well-formed frame: %s):\n%s", k.cfg, m.Site, firstBad, mo.badMsg), "bad:" + strings.SplitN(mo.badKey, ":", 2)[0]
+		}
+		return "", "", fmt.Sprintf("%s/burst/responses=%s", strings.SplitN(firstBad, ":", 2)[0], c07Bucket(len(mo.resp), len(frames)))
 	}
 	var mism []string
 	allActed := true
@@ -1550,7 +1562,7 @@ func init() {
 	reg.Part("C07/streams", func(c *reg.Ctx) *reg.Result {
 		res := reg.NewResult(c.Part)
 		cfg := c07Cfg{Server: c.Arg("server", "rs"), Alloc: c.Arg("alloc", "0") == "1", MaxTx: uint32(c.ArgInt("maxtx", 0))}
-		k := &c07Checker{cfg: cfg, bound: c.ArgInt("bound", 0), res: res, refs: map[string]*c07Outcome{}}
+		k := &c07Checker{cfg: cfg, bound: c.ArgInt("bound", 0), burst: c.Arg("mode", "") == "burst", res: res, refs: map[string]*c07Outcome{}}
 		sessions := c07Sessions()
 		// self-check of the classifier and the builder on the unmutated sessions
 		for _, n := range c07SessionNames {
@@ -1635,7 +1647,7 @@ func init() {
 		Level: "fault_enumeration",
 		Rule: "three valid base sessions (file I/O 16 packets, directories and names 20, extended requests 12) x {RequestServer over an in-memory handler, os-backed Server over a scratch tree} x allocator {off,on}; " +
 			"mutations: cut at byte offsets, every frame length and inner length/count field <- {0,1,n-1,n+1,2^31-1,2^32-1,256Ki,256Ki+1}, type byte <- 0..255, 4 garbage suffixes; " +
-			"each stream executed under the cooperative scheduler on the default schedule (well-formed leading frames in lock step, the rest in one write, then hang-up); " +
+			"each stream executed under the cooperative scheduler on the default schedule (well-formed leading frames in lock step, the rest in one write, then hang-up; with the allocator also the whole stream in one burst, judged on the schedule-independent clauses only); " +
 			"distinct = distinct mutated stream per configuration",
 		Assumptions: []string{
 			"one deterministic schedule per stream (db(0)); a subset under db(1) in the thorough tier for the schedule-independent clauses",
@@ -1662,6 +1674,10 @@ func init() {
 					j(s+" alloc="+al+" db0 all mutations", s, al, nil, 16, budget)
 				}
 			}
+			// the same streams written in one burst (requests race with the OPEN that creates their handle, so
+			// only Serve-returns / no panic / no goroutine left / everything released are judged)
+			j("rs alloc=1 db0 one burst", "rs", "1", map[string]string{"mode": "burst"}, 16, 100)
+			j("os alloc=1 db0 one burst", "os", "1", map[string]string{"mode": "burst"}, 16, 100)
 			// D8: allocator with a tx packet limit above the page size
 			d8 := map[string]string{"maxtx": "1048576", "class": "len", "session": "fileio"}
 			j("rs alloc=1 maxtx=1MiB length fields", "rs", "1", d8, 2, 60)
